@@ -96,8 +96,9 @@ func (k Keeper) Authenticate(ctx sdk.Context, sourceChain, destinationChain, por
 
 // ConvWildcardToRegular convert wildcard to regular
 func ConvWildcardToRegular(wildcard string) string {
-	regular := strings.Replace(wildcard, ".", "\\.", -1)
-	regular = strings.Replace(regular, "*", ".*", -1)
+	// quote every regular-expression operator (identifiers may contain . + [ ]),
+	// then turn the quoted wildcard into "match anything"
+	regular := strings.Replace(regexp.QuoteMeta(wildcard), "\\*", ".*", -1)
 	regular = "^" + regular + "$"
 	return regular
 }
